@@ -23,6 +23,8 @@ func zzSupportedProtocol(p proto.Protocol) bool {
 // player count is the number of registered players.
 func VerifHarness_InitialPing() {
 	cfg := config.DefaultConfig
+	// the advertised slot count is cosmetic: it is any number, also one below the online count
+	cfg.Status.ShowMaxPlayers = int(zz.Int32())
 	p := zzProxy(&cfg, &zzEvents{})
 	n := zz.Choose(3)
 	for i := 0; i < n; i++ {
@@ -41,6 +43,7 @@ func VerifHarness_InitialPing() {
 		zz.Reach("unsupported-protocol")
 	}
 	zz.Assert(ping.Players != nil && ping.Players.Online == n, "status response player count differs from the online player count")
+	zz.Assert(ping.Players.Max == cfg.Status.ShowMaxPlayers, "status response does not advertise the configured slot count")
 }
 
 // Status-phase packet sequences of length <= 3 over {request, ping(payload), other known, unknown}.
